@@ -42,6 +42,15 @@ var c17Watchdog = func() time.Duration {
 	return 120 * time.Second
 }()
 
+var c17Stalls int32
+
+func c17WD() time.Duration {
+	if atomic.LoadInt32(&c17Stalls) > 0 {
+		return 10 * time.Second
+	}
+	return c17Watchdog
+}
+
 type c17Case struct {
 	Kind      string `json:"kind"`
 	Cap       int    `json:"cap"`
@@ -74,7 +83,7 @@ type c17Mon struct {
 	mu          sync.Mutex
 	seq         int64
 	cur         map[string][]*c17Conn
-	cleanClosed map[string]bool
+	cleanEnded map[string]bool
 	nextID      int
 	maxLive     int
 	history     []string
@@ -138,9 +147,15 @@ func (m *c17Mon) accepted(x *c17Conn) {
 	for _, y := range m.cur[x.cid] {
 		if y.e > x.s {
 			cands = append(cands, y) // overlapping connects of one id: order unknown
+			if y.clean || x.clean {
+				m.cleanEnded[x.cid] = true // one of the two has been taken over
+			}
 			m.r.Count("ambiguous_same_id_overlaps", 1)
 		} else {
 			y.superseded = true
+			if y.clean {
+				m.cleanEnded[x.cid] = true
+			}
 			if !y.closed {
 				m.r.Count("takeovers_of_open_connection", 1)
 			}
@@ -174,9 +189,9 @@ func (m *c17Mon) accepted(x *c17Conn) {
 	if len(live) > m.cs.Cap {
 		why := "all-tracked-by-broker"
 		if len(untracked) > 0 {
-			why = "untracked-live-client:after-clean-session-close-of-same-id"
+			why = "untracked-live-client:after-older-clean-session-connection-of-same-id-ended"
 			for _, cid := range untracked {
-				if !m.cleanClosed[cid] {
+				if !m.cleanEnded[cid] {
 					why = "untracked-live-client:other"
 				}
 			}
@@ -210,7 +225,7 @@ func (m *c17Mon) closing(x *c17Conn, how string) {
 	m.seq++
 	x.closed = true
 	if x.clean {
-		m.cleanClosed[x.cid] = true
+		m.cleanEnded[x.cid] = true
 	}
 	m.note("%d: conn#%d CLOSE(%s) id=%s superseded=%v", m.seq, x.id, how, x.cid, x.superseded)
 	m.mu.Unlock()
@@ -218,6 +233,7 @@ func (m *c17Mon) closing(x *c17Conn, how string) {
 }
 
 func (m *c17Mon) inconclusive(why string) {
+	atomic.AddInt32(&c17Stalls, 1)
 	if atomic.CompareAndSwapInt32(&m.aborted, 0, 1) {
 		m.r.Inconclusive(why + fmt.Sprintf(" [kind=%s cap=%d]", m.cs.Kind, m.cs.Cap))
 	}
@@ -240,8 +256,9 @@ func (m *c17Mon) waitUntil(what string, cond func() bool) bool {
 		}
 		if e := atomic.LoadInt64(&m.events); e != last {
 			last, lastT = e, time.Now()
-		} else if time.Since(lastT) > c17Watchdog {
-			m.inconclusive("watchdog: no progress for " + c17Watchdog.String() + " while waiting for " + what)
+		} else if wd := c17WD(); time.Since(lastT) > wd {
+			atomic.AddInt32(&c17Stalls, 1)
+			m.inconclusive("watchdog: no progress for " + wd.String() + " while waiting for " + what)
 			return false
 		}
 	}
@@ -267,7 +284,7 @@ func c17Connect(m *c17Mon, addr, cid string, clean bool) (*c17Conn, byte, bool) 
 		m.inconclusive("CONNECT write failed: " + err.Error())
 		return nil, 0, false
 	}
-	nc.SetReadDeadline(time.Now().Add(c17Watchdog))
+	nc.SetReadDeadline(time.Now().Add(c17WD()))
 	p, err := packets.ReadPacket(nc)
 	if err != nil {
 		nc.Close()
@@ -322,7 +339,7 @@ func c17CloseSettled(m *c17Mon, x *c17Conn, how int) {
 	if tc, ok := x.nc.(*net.TCPConn); ok {
 		tc.CloseWrite()
 	}
-	x.nc.SetReadDeadline(time.Now().Add(c17Watchdog))
+	x.nc.SetReadDeadline(time.Now().Add(c17WD()))
 	buf := make([]byte, 256)
 	for {
 		if _, err := x.nc.Read(buf); err != nil {
@@ -430,7 +447,7 @@ func c17RunCase(r *kit.Run, cs *c17Case, seed int64) {
 		b.listener.Close()
 	}()
 	addr := fmt.Sprintf("127.0.0.1:%d", b.listener.Addr().(*net.TCPAddr).Port)
-	m := &c17Mon{r: r, cs: cs, b: b, cur: map[string][]*c17Conn{}, cleanClosed: map[string]bool{}}
+	m := &c17Mon{r: r, cs: cs, b: b, cur: map[string][]*c17Conn{}, cleanEnded: map[string]bool{}}
 
 	idLocks := make([]sync.Mutex, cs.Pool)
 	closeConn := func(x *c17Conn, how int) {
